@@ -44,9 +44,9 @@ REL = {'past2': dict(microseconds=-1), 'future2': dict(microseconds=1), 'today':
        'tomorrow': dict(days=1), 'yesterday': dict(days=-1)}
 EPOOL = ['past', 'past', 'future', 'none', 'past2', 'future2', 'today', 'today', 'today_late', 'tomorrow', 'yesterday']
 # _dict_output compares with `value > today` (strict) where _value_output uses `>=`: at expiry == today the dict path keeps the stale value.
-# Genuine defect (fixes/C20.patch); C20_DICT_TODAY=0 keeps the boundary off the dict path only.
+# That was a genuine defect, repaired by fixes/C20.patch (/repo 66110a1).
 import os
-DICT_TODAY = os.environ.get('C20_DICT_TODAY', '1') == '1'
+DICT_TODAY = True          # the dict path is repaired in /repo (66110a1): the boundary is exercised on both paths, no switch
 def expv(e):
     if e in EXPV: return EXPV[e]
     from pyg_base import dt
